@@ -139,7 +139,16 @@ func (m *CPU) Run(app risc.Application) (int, error) {
 			log.Info(m.ctx, "\t🛑 Return")
 			cycle++
 			m.writeBus.Connect(cycle)
-			for !m.areWriteUnitsEmpty() || !m.writeBus.IsEmpty() {
+			for !m.areExecuteUnitsEmpty() || !m.areWriteUnitsEmpty() || !m.writeBus.IsEmpty() {
+				// Older instructions may still be in flight in the execute units
+				for _, eu := range m.executeUnits {
+					if !eu.isEmpty() {
+						resp := eu.Cycle(euReq{cycle, m.ctx, app})
+						if resp.err != nil {
+							return 0, resp.err
+						}
+					}
+				}
 				for _, wu := range m.writeUnits {
 					_ = wu.Cycle(wuReq{-1})
 				}
@@ -249,6 +258,15 @@ func (m *CPU) isEmpty() bool {
 	if !empty {
 		return false
 	}
+	for _, eu := range m.executeUnits {
+		if !eu.isEmpty() {
+			return false
+		}
+	}
+	return true
+}
+
+func (m *CPU) areExecuteUnitsEmpty() bool {
 	for _, eu := range m.executeUnits {
 		if !eu.isEmpty() {
 			return false
